@@ -32,7 +32,7 @@ LowerC(c)    == IF IsUpper(c) THEN c + 32 ELSE c
 LowerS(s)    == [i \in 1..Len(s) |-> LowerC(s[i])]
 IsAscii(s)   == \A i \in 1..Len(s) : s[i] < 128
 AllDigits(s) == \A i \in 1..Len(s) : IsDigit(s[i])
-CountOf(s, c) == Cardinality({i \in 1..Len(s) : s[i] = c})
+CountOf(s, c) == Len(SelectSeq(s, LAMBDA x : x = c))
 \* the label separators of IDNA (RFC 3490 section 3.1)
 IsDot(c)     == c = DOT \/ c = 12290 \/ c = 65294 \/ c = 65377
 
@@ -87,7 +87,14 @@ NameInfo(tab, p) ==
            can |-> IF okk THEN Labels(JoinDot([i \in 1..Len(ls) |-> cs[i].a])) ELSE <<>>,
            plain |-> ~fq /\ Len(p.name) <= 253 /\ \A i \in 1..Len(p.name) : (IsDot(p.name[i]) => p.name[i] = DOT)]
 
-HostOK(tab, h) == LET p == Parse(h) IN p.ok /\ NameInfo(tab, p).ok
+\* everything the comparison needs to know about one host text (port aside)
+NoInfo == [ok |-> FALSE, lit |-> FALSE, raw |-> <<>>, can |-> <<>>, plain |-> FALSE]
+HostInfo(tab, h) == LET p == Parse(h) IN
+                    IF ~p.ok THEN NoInfo
+                    ELSE LET n == NameInfo(tab, p) IN
+                         [ok |-> n.ok, lit |-> p.lit, raw |-> n.raw, can |-> n.can, plain |-> n.plain /\ PortPlain(p)]
+
+HostOK(tab, h) == HostInfo(tab, h).ok
 Malformed(tab, h) == ~HostOK(tab, h)
 
 (* ---- entries ------------------------------------------------------------------------------ *)
@@ -101,29 +108,33 @@ LabelMatch(hl, el, sub, hlit, elit) ==
   \/ hl = el /\ hlit = elit
   \/ sub /\ ~hlit /\ ~elit /\ IsSuffixSeq(el, hl)
 
-\* h is well-formed (HostOK)
-Strong(tab, h, e) ==
-  /\ EntryOK(tab, e)
-  /\ LET hp == Parse(h) ep == Parse(EntryBody(e))
-         hi == NameInfo(tab, hp) ei == NameInfo(tab, ep) IN
-     /\ hi.plain /\ ei.plain /\ PortPlain(hp) /\ PortPlain(ep)
-     /\ LabelMatch(hi.raw, ei.raw, EntrySub(e), hp.lit, ep.lit)
-     /\ LabelMatch(hi.can, ei.can, EntrySub(e), hp.lit, ep.lit)
+\* how one entry relates to the host (hi = HostInfo of the host text h):
+\*  "strong"  the host is the entry / a label-wise subdomain of the dot-prefixed entry as written
+\*  "loose"   only after case folding / IDNA / trailing dot / odd port text, or the texts are identical
+\*  "bad" / "badsame"  the entry itself is malformed (and identical to the host text)
+EntryClass(tab, h, hi, e) ==
+  LET body == EntryBody(e)
+      ei   == HostInfo(tab, body)
+      sub  == EntrySub(e)
+      same == h # <<>> /\ (h = e \/ h = body)
+  IN IF ~ei.ok THEN (IF same THEN "badsame" ELSE "bad")
+     ELSE IF hi.ok /\ LabelMatch(hi.can, ei.can, sub, hi.lit, ei.lit) THEN
+          (IF hi.plain /\ ei.plain /\ LabelMatch(hi.raw, ei.raw, sub, hi.lit, ei.lit) THEN "strong" ELSE "loose")
+     ELSE IF same THEN "loose" ELSE "none"
 
-Loose(tab, h, e) ==
-  /\ EntryOK(tab, e)
-  /\ LET hp == Parse(h) ep == Parse(EntryBody(e))
-         hi == NameInfo(tab, hp) ei == NameInfo(tab, ep) IN
-     LabelMatch(hi.can, ei.can, EntrySub(e), hp.lit, ep.lit)
+RECURSIVE FoldEntries(_, _, _, _, _)
+FoldEntries(tab, h, hi, list, i) ==
+  IF i > Len(list) THEN [strong |-> FALSE, loose |-> FALSE, bad |-> FALSE]
+  ELSE LET c == EntryClass(tab, h, hi, list[i])
+           r == FoldEntries(tab, h, hi, list, i + 1)
+       IN [strong |-> r.strong \/ c = "strong",
+           loose  |-> r.loose \/ c \in {"strong", "loose", "badsame"},
+           bad    |-> r.bad \/ c \in {"bad", "badsame"}]
 
 Verdicts(tab, h, list) ==
-  LET ok     == HostOK(tab, h)
-      strong == ok /\ \E i \in 1..Len(list) : Strong(tab, h, list[i])
-      loose  == \/ ok /\ \E i \in 1..Len(list) : Loose(tab, h, list[i])
-                \/ h # <<>> /\ \E i \in 1..Len(list) : h = list[i] \/ h = EntryBody(list[i])
-      allok  == \A i \in 1..Len(list) : EntryOK(tab, list[i])
-  IN IF strong /\ allok THEN {TRUE}
-     ELSE IF strong \/ loose THEN {TRUE, FALSE}
+  LET f == FoldEntries(tab, h, HostInfo(tab, h), list, 1)
+  IN IF f.strong /\ ~f.bad THEN {TRUE}
+     ELSE IF f.loose THEN {TRUE, FALSE}
      ELSE {FALSE}
 
 \* clause names for a boolean answer b
